@@ -1745,6 +1745,11 @@ class Translator:
                 if nm not in self.enums: f.write('typedef struct %s %s;\n' % (nm, nm))
             for k, v in self.records.items():
                 if v: f.write(v + '\n')
+            # named operand classes (struct X : EnumOperand<RegName, ...>): X_GetName(p) reaches the inherited GetName without spelling the value list
+            for k, v in self.records.items():
+                m = re.match(r'typedef struct (\w+) \{\n    (Enum(?:All)?Operand_\w+) base_0;\n\} \1;\s*$', v or '')
+                if m and (m.group(2) + '_GetName') in self.out_funcs:
+                    f.write('#define %s_GetName(p) %s_GetName(&(p)->base_0)\n' % (m.group(1), m.group(2)))
             for k, v in self.globals.items():
                 # guarded: two units translated from different TUs may define the same class-scope constant (identical text) in one harness
                 if v: f.write('#ifndef VERIF_G_%s\n#define VERIF_G_%s\n%s\n#endif\n' % (k, k, v))
@@ -1858,9 +1863,13 @@ class Translator:
                 out.append('// %s: not a non-static member function, no wrapper' % nm); continue
             ft = d['type']['qualType']
             cls = self.owner_type(d)
-            if '<' in cls or (self.opts.get('wrapper_owners') and cls not in self.opts['wrapper_owners']):
-                out.append('// %s: owner %s not bridged, no wrapper' % (nm, cls)); continue
             ccls = self.ctype_s(cls)
+            value_owner = False
+            if '<' in cls or (self.opts.get('wrapper_owners') and cls not in self.opts['wrapper_owners']):
+                if ccls in self.records and self.rec_cxx.get(ccls):
+                    value_owner = True        # a plain value class (operand types): the wrapper converts the C struct to a real object and calls it
+                else:
+                    out.append('// %s: owner %s not bridged, no wrapper' % (nm, cls)); continue
             const = 'const ' if re.search(r'\)\s*const\b', ft) else ''
             rq = d['type'].get('desugaredQualType', ft)
             ret = rq[:rq.index('(')].strip()
@@ -1892,6 +1901,21 @@ class Translator:
                 tsel = 'template %s<%s>' % (d['name'], ', '.join(qt(a['type']) for a in targs))
             call = 'BR_OBJ(%s).%s(%s)' % (cls, tsel or d['name'], ', '.join(args))
             cretb = cret.replace('const ', '')
+            if value_owner:
+                if cretb.startswith('tuple_') or (cretb in self.records):
+                    out.append('// %s: value-class owner with a record result, no generated wrapper' % nm); continue
+                call = 'vo_.%s(%s)' % (tsel or d['name'], ', '.join(args))
+                rt = ('CX(%s)' % cretb) if cretb in self.enums else cretb
+                cxxt = self.rec_cxx[ccls]
+                mm = re.match(r'^(Enum(?:All)?Operand)<(\w+)((?:, -?\d+)+)>$', cxxt)
+                if mm:   # clang prints enumerator template arguments as integers
+                    cxxt = '%s<%s%s>' % (mm.group(1), mm.group(2), ''.join(', %s(%s)' % (mm.group(2), v.strip()) for v in mm.group(3).split(',')[1:]))
+                lines = ['extern "C" %s %s(%s) {' % (rt, nm, ', '.join(cps)), '    %s vo_; from_c(self, vo_);' % cxxt] + pre
+                if cretb == 'void': lines += ['    BRIDGE_RUN(%s);' % call]
+                else: lines += ['    %s r{};' % rt, '    BRIDGE_RUN(r = static_cast<%s>(%s));' % (rt, call)]
+                if not const: lines += ['    to_c(vo_, self);']
+                lines += ['    return r;' if cretb != 'void' else '    return;', '}']
+                out += lines; done.append(nm); continue
             lines = ['extern "C" %s %s(%s) {' % (('CX(%s)' % cretb) if (cretb in self.records or cretb in self.enums) else cretb, nm, ', '.join(cps)), '    BR_LOAD(self);'] + pre
             if cretb == 'void':
                 lines += ['    BRIDGE_RUN(%s);' % call, '    BR_STORE(self);', '}']
